@@ -5,6 +5,7 @@ import (
 	"go/token"
 	"go/types"
 	"sort"
+	"strconv"
 	"strings"
 
 	"golang.org/x/tools/go/callgraph"
@@ -449,4 +450,237 @@ func staleNotification(c *cx, id string) {
 		return true
 	})
 	c.r.Floor(id, "leave requests in LeavePresence", n, 1)
+}
+
+// serveLockAllowed: acquisitions of a wait-held lock that are reachable from a
+// handler, with the fact that must dominate each (it excludes the handler
+// context).
+var serveLockAllowed = map[string]struct{ fact, why string }{
+	"ibb.(*Conn).flush|ibb.Conn.writeLock": {"eq(p0,nil)", "flush(t) is called with the handler's encoder (non-nil) on the serve goroutine; only the application's Flush passes nil"},
+}
+
+// serveLockWait: E-eff + E-lock. A mutex that some function holds while it
+// waits for a correlated reply (the must-lockset at a call from which one of
+// the session's wait APIs is reachable is not empty) is never acquired on the
+// serve goroutine: the holder's reply can only be delivered by the goroutine
+// that would then be waiting for the holder's lock.
+func serveLockWait(c *cx, id string) {
+	s := c.p.SSA()
+	pkgOf := func(fn *ssa.Function) string {
+		pk := fn.Package()
+		if pk == nil && fn.Origin() != nil {
+			pk = fn.Origin().Package()
+		}
+		if pk == nil && fn.Parent() != nil {
+			pk = fn.Parent().Package()
+		}
+		if pk == nil {
+			return ""
+		}
+		return pk.Pkg.Path()
+	}
+	// the analysis is per package: calls are followed inside the package and
+	// through bufio and encoding/base64 (a buffered writer calling back into the package's own
+	// io.Writer); the correlated waits are the leaves. Across packages, and
+	// through the token plumbing of xmlstream and encoding/xml, the call graph
+	// is too coarse (any io.Writer may be a Conn, any TokenWriter a session).
+	var pkgs []string
+	seenPkg := map[string]bool{}
+	for _, f := range c.allFns() {
+		if f.Pkg != nil && !seenPkg[f.Pkg.PkgPath] {
+			seenPkg[f.Pkg.PkgPath] = true
+			pkgs = append(pkgs, f.Pkg.PkgPath)
+		}
+	}
+	sort.Strings(pkgs)
+	used := map[string]bool{}
+	nsup := 0
+	var allClasses []string
+	for _, P := range pkgs {
+		inP := func(fn *ssa.Function) bool {
+			pp := pkgOf(fn)
+			return pp == P || pp == "bufio" || pp == "encoding/base64"
+		}
+		// the package's own types that it hands to the plumbing (the writers
+		// a buffered writer or base64 encoder of this package can call back)
+		wrapped := map[string]bool{}
+		for _, f := range c.allFns() {
+			if f.Body == nil || f.Pkg == nil || f.Pkg.PkgPath != P {
+				continue
+			}
+			for _, cl := range f.AllCalls() {
+				cid := f.CalleeID(cl)
+				if !strings.HasPrefix(cid, "bufio.") && !strings.HasPrefix(cid, "encoding/base64.") {
+					continue
+				}
+				for _, a := range cl.Args {
+					if t := f.Info().TypeOf(a); t != nil {
+						wrapped[eng.TypeStr(t)] = true
+					}
+				}
+			}
+		}
+		follow := func(e *callgraph.Edge) bool {
+			if _, isGo := e.Site.(*ssa.Go); isGo {
+				return false
+			}
+			if !inP(e.Caller.Func) {
+				return false
+			}
+			if pkgOf(e.Caller.Func) != P && pkgOf(e.Callee.Func) == P {
+				// a call back from the plumbing: only into a wrapped type
+				rv := e.Callee.Func.Signature.Recv()
+				return rv != nil && wrapped[eng.TypeStr(rv.Type())]
+			}
+			return true
+		}
+		isWait := func(fn *ssa.Function) bool {
+			f := s.FnOfSSA(fn)
+			return f != nil && isWaitAPI(f.Short)
+		}
+		// 1. functions of P (and plumbing) from which a wait is reachable
+		reaches := map[*ssa.Function]bool{}
+		var work []*ssa.Function
+		for fn := range s.Graph.Nodes {
+			if isWait(fn) {
+				reaches[fn] = true
+				work = append(work, fn)
+			}
+		}
+		for len(work) > 0 {
+			fn := work[len(work)-1]
+			work = work[:len(work)-1]
+			for _, e := range s.Graph.Nodes[fn].In {
+				if !follow(e) || reaches[e.Caller.Func] {
+					continue
+				}
+				reaches[e.Caller.Func] = true
+				work = append(work, e.Caller.Func)
+			}
+		}
+		// 2. locks held across such calls
+		held := map[string]string{}
+		for _, f := range c.allFns() {
+			if f.Body == nil || f.Pkg == nil || f.Pkg.PkgPath != P {
+				continue
+			}
+			sf := s.FuncOf(f)
+			if sf == nil || s.Graph.Nodes[sf] == nil {
+				continue
+			}
+			var li *eng.LockInfo
+			for _, e := range s.Graph.Nodes[sf].Out {
+				if !follow(e) || !reaches[e.Callee.Func] || !(inP(e.Callee.Func) || isWait(e.Callee.Func)) {
+					continue
+				}
+				for _, cl := range f.AllCalls() {
+					if cl.Lparen != e.Pos() && cl.Pos() != e.Pos() {
+						continue
+					}
+					if li == nil {
+						li = f.Graph().Locks(nil)
+					}
+					ls, ok := li.AtNode(cl)
+					if !ok {
+						continue
+					}
+					for cls := range ls {
+						w := f.Short + " holds it at " + c.p.Pos(cl.Pos()) + " across a call that reaches a correlated wait through " + strings.TrimPrefix(s.Name(e.Callee.Func), eng.ModPath+"/")
+						if old, have := held[cls]; !have || w < old {
+							held[cls] = w
+						}
+					}
+				}
+			}
+		}
+		if len(held) == 0 {
+			continue
+		}
+		for k := range held {
+			allClasses = append(allClasses, k)
+		}
+		// 3. acquisitions reachable from the package's handlers
+		seen := map[*ssa.Function]bool{}
+		var queue []*ssa.Function
+		for _, f := range c.allFns() {
+			if f.Obj == nil || f.Sig().Recv() == nil || f.Pkg == nil || f.Pkg.PkgPath != P {
+				continue
+			}
+			switch f.Obj.Name() {
+			case "HandleXMPP", "HandleIQ", "HandleMessage", "HandlePresence":
+			default:
+				continue
+			}
+			if sf := s.FuncOf(f); sf != nil && !seen[sf] {
+				seen[sf] = true
+				queue = append(queue, sf)
+			}
+		}
+		for len(queue) > 0 {
+			fn := queue[0]
+			queue = queue[1:]
+			n := s.Graph.Nodes[fn]
+			if n == nil {
+				continue
+			}
+			for _, e := range n.Out {
+				if !follow(e) || !inP(e.Callee.Func) || seen[e.Callee.Func] || isWait(e.Callee.Func) {
+					continue
+				}
+				seen[e.Callee.Func] = true
+				queue = append(queue, e.Callee.Func)
+			}
+		}
+		for _, f := range c.allFns() {
+			if f.Body == nil {
+				continue
+			}
+			sf := s.FuncOf(f)
+			if sf == nil || !seen[sf] {
+				continue
+			}
+			g := f.Graph()
+			for _, cl := range f.AllCalls() {
+				op, cls, _ := f.LockOp(cl)
+				if op <= 0 || held[cls] == "" {
+					continue
+				}
+				key := f.Short + "|" + cls
+				construct := "acquire of " + cls + " on the serve goroutine"
+				al, ok := serveLockAllowed[key]
+				if !ok {
+					c.r.Check(id, f, construct, "E-eff/E-lock: a lock that is held while waiting for a correlated reply is not acquired by a function reachable from a handler of the same package", cl.Pos(), false, held[cls]+": the serve goroutine blocks on the lock and the holder's reply is never delivered")
+					continue
+				}
+				used[key] = true
+				pt, _ := g.Where(cl)
+				okd, whyNot := g.Dominated(pt, al.fact)
+				// support of a parameter fact: no caller on the serve goroutine
+				// passes a value that makes the fact true
+				if strings.HasPrefix(al.fact, "eq(p") && strings.HasSuffix(al.fact, ",nil)") {
+					pi, _ := strconv.Atoi(strings.TrimSuffix(strings.TrimPrefix(al.fact, "eq(p"), ",nil)"))
+					for _, cf := range c.allFns() {
+						csf := s.FuncOf(cf)
+						if cf.Body == nil || csf == nil || !seen[csf] {
+							continue
+						}
+						for _, call := range cf.Calls(strings.Replace(strings.Replace(f.Short, "(*", "", 1), ")", "", 1)) {
+							if pi >= len(call.Args) {
+								continue
+							}
+							cp, _ := cf.Graph().Where(call)
+							c.r.Check(id, cf, "argument of "+f.Short+" on the serve goroutine", "G: a caller that runs on the serve goroutine does not pass nil (nil selects the locking path)", call.Pos(), cf.Graph().NilnessOf(call.Args[pi], cp) != -1, "nil is passed: the callee takes the lock that a writer waiting for its acknowledgement holds")
+							nsup++
+						}
+					}
+				}
+				c.r.Check(id, f, construct, "E-eff/E-lock/G: the acquisition is reachable from a handler and is therefore taken only when "+al.fact+" ("+al.why+"); "+held[cls], cl.Pos(), okd, whyNot)
+			}
+		}
+	}
+	sort.Strings(allClasses)
+	c.r.Note("%s: locks held across a correlated wait (per package): %s", id, strings.Join(allClasses, ", "))
+	c.r.Floor(id, "lock classes held across a correlated wait", len(allClasses), 1)
+	c.r.Floor(id, "guarded acquisitions reachable from handlers", len(used), len(serveLockAllowed))
+	c.r.Floor(id, "serve-goroutine call sites supporting a parameter fact", nsup, 1)
 }
